@@ -16,8 +16,8 @@ import (
 
 	"github.com/anishathalye/porcupine"
 	"github.com/sheerbytes/sheerbytes/internal/peers"
-	vrt "github.com/sheerbytes/sheerbytes/internal/verif/vrt"
 	"github.com/sheerbytes/sheerbytes/internal/verif/vlib"
+	vrt "github.com/sheerbytes/sheerbytes/internal/verif/vrt"
 	"github.com/sheerbytes/sheerbytes/pkg/protocol"
 )
 
